@@ -219,6 +219,50 @@ fn floats(ctx: &mut Ctx, n: usize) {
     ctx.rng = rng;
 }
 
+/// The whole product of the spelling features of a float / decimal literal (sign, integer part, fraction, exponent marker,
+/// exponent sign, exponent digits with leading zeros): the expected value is computed from the *parts*, re-assembled in one
+/// canonical spelling, so that a mistake tied to one combination of features shows.
+fn number_spelling_product(ctx: &mut Ctx) {
+    ctx.align();
+    let signs = ["", "+", "-"];
+    let ints = ["", "0", "7", "25", "007", "100"];
+    let fracs: [Option<&str>; 6] = [None, Some("0"), Some("25"), Some("250"), Some("007"), Some("5")];
+    let exps = ["0", "2", "02", "002", "10", "010", "00", "22"];
+    for sign in signs {
+        for int in ints {
+            for frac in fracs {
+                if int.is_empty() && frac.is_none() {
+                    continue;
+                }
+                let mant = format!("{sign}{int}{}", frac.map(|f| format!(".{f}")).unwrap_or_default());
+                let neg = if sign == "-" { "-" } else { "" };
+                let canon_mant = format!("{neg}{}.{}", if int.is_empty() { "0" } else { int }, frac.unwrap_or("0"));
+                if ctx.mine() {
+                    let v: f64 = canon_mant.parse().unwrap();
+                    check_literal(ctx, &format!("f{mant}"), &Want::Val(Value::Float(v)), "float-spelling-product");
+                    let dcanon = format!("{neg}{}{}", if int.is_empty() { "0" } else { int }, frac.map(|f| format!(".{f}")).unwrap_or_default());
+                    if let Ok(d) = rust_decimal::Decimal::from_str_exact(&dcanon) {
+                        check_literal(ctx, &format!("d{mant}"), &Want::Val(Value::Decimal(d)), "decimal-spelling-product");
+                    }
+                }
+                for marker in ["e", "E"] {
+                    for esign in signs {
+                        for exp in exps {
+                            if !ctx.mine() {
+                                continue;
+                            }
+                            let e: i32 = exp.parse().unwrap();
+                            let canon = format!("{canon_mant}e{}{e}", if esign == "-" { "-" } else { "" });
+                            let v: f64 = canon.parse().unwrap();
+                            check_literal(ctx, &format!("f{mant}{marker}{esign}{exp}"), &Want::Val(Value::Float(v)), "float-spelling-product");
+                        }
+                    }
+                }
+            }
+        }
+    }
+}
+
 /// Correct rounding, tested where it is hardest: the exact midpoint between two adjacent doubles
 /// (ties to even) and the decimal strings one digit above and below it.
 fn float_midpoints(ctx: &mut Ctx, n: usize) {
@@ -637,6 +681,7 @@ fn layout(ctx: &mut Ctx, n: usize) {
 fn run(ctx: &mut Ctx) {
     ints(ctx, ctx.tier.of(1_500, 40_000));
     floats(ctx, ctx.tier.of(1_500, 40_000));
+    number_spelling_product(ctx);
     float_midpoints(ctx, ctx.tier.of(300, 6_000));
     decimals(ctx, ctx.tier.of(6_000, 150_000));
     strings(ctx, ctx.tier.of(3_000, 60_000));
@@ -654,7 +699,7 @@ fn finish(m: &Merged, tier: Tier) -> Finish {
     };
     let need = [
         ("int-decimal", 500), ("int-hex", 200), ("int-octal", 200), ("int-binary", 200), ("int-out-of-range", 5), ("float-shortest", 500), ("float-scientific", 500), ("float-exact-expansion", 100), ("float-exact-midpoint-ties-to-even", 1_000), ("float-just-above-midpoint", 1_000), ("float-just-below-midpoint", 1_000),
-        ("decimal-scale-preserved", tier.of(5_000, 50_000)), ("decimal-beyond-scale-28", 100), ("string-raw-bmp", 3_900), ("string-unicode-escape", 1_000), ("string-escape", 6), ("string-mixed-raw-and-escapes", 10_000), ("keyword-identifier-collisions", 3_000), ("layout", tier.of(50_000, 500_000)),
+        ("decimal-scale-preserved", tier.of(5_000, 50_000)), ("decimal-beyond-scale-28", 100), ("string-raw-bmp", 3_900), ("string-unicode-escape", 1_000), ("string-escape", 6), ("string-mixed-raw-and-escapes", 10_000), ("keyword-identifier-collisions", 3_000), ("layout", tier.of(50_000, 500_000)), ("float-spelling-product", 4_000), ("decimal-spelling-product", 90),
     ];
     for (fam, min) in need {
         f.floors.push(floor(format!("family {fam}: {} (floor {min})", m.c(&format!("family:{fam}"))), m.c(&format!("family:{fam}")) >= min as u64));
